@@ -22,22 +22,22 @@ theorem dly_start (r : Rule) (p : Inst) (nti : Nat) (hp : WfInst p) (hy1 : 1901 
     rw [Nat.zero_mul]; unfold dayOf; congr 1; omega
 
 theorem dly_nh_sound (r : Rule) (p : Inst) (n nti : Nat) (l : List Inst) (hr : WfRule r) (hp : WfInst p)
-    (hs : SeedOk r p) (hy : 1901 ≤ p.y) (hcap : capNti r n = some nti) (hh : ¬ Handover r)
+    (hy : 1901 ≤ p.y) (hcap : capNti r n = some nti) (hh : ¬ Handover r)
     (h : fillDly r p n = some l) : ∀ x ∈ l, DailyInst r p x := by
   rw [fillDly_nh r p n nti hr hp hcap hh] at h
   obtain ⟨l', hl, rfl⟩ := Option.map_eq_some_iff.1 h
   obtain ⟨hc0, hw0⟩ := dly_start r p nti hp hy
   rw [hw0] at hl
-  have he : EnumOk (dctx r p nti).e := makeEnum_ok r p hr hp hs.timeOk
+  have he : EnumOk (dctx r p nti).e := makeEnum_ok r p hr hp
   intro x hx
   refine dlyLoop_sound (dctx r p nti) hr hp he (DailyInst r p) ?_ _ 0 p.y p.m p.d [] l' hc0
     (fun z hz => by cases hz) hl x (List.mem_reverse.1 hx)
   intro j y m d hc hy2 hsk t ht _ _ _
-  exact dly_inst r p nti hr hp hs hy j y m d hc hy2 hsk t ht
+  exact dly_inst r p nti hr hp hy j y m d hc hy2 hsk t ht
 
 /-- completeness of the day loop's run, given that the loop's BYSETPOS test lets `x` pass -/
 theorem dly_nh_complete' (r : Rule) (p : Inst) (n nti : Nat) (l : List Inst) (hr : WfRule r) (hp : WfInst p)
-    (hs : SeedOk r p) (hy : 1901 ≤ p.y) (hcap : capNti r n = some nti) (hh : ¬ Handover r)
+    (hy : 1901 ≤ p.y) (hcap : capNti r n = some nti) (hh : ¬ Handover r)
     (h : fillDly r p n = some l) (x : Inst) (hx : DailyInst r p x) (hge : absOf p ≤ absOf x)
     (hle : ltP r.untl x = false) (hxy : x.y ≤ 2099)
     (hsk' : ∀ k ix, Carry p.y p.m (rnd (dctx r p nti) k) x.y x.m x.d →
@@ -47,7 +47,7 @@ theorem dly_nh_complete' (r : Rule) (p : Inst) (n nti : Nat) (l : List Inst) (hr
   rw [fillDly_nh r p n nti hr hp hcap hh] at h
   obtain ⟨l', hl, rfl⟩ := Option.map_eq_some_iff.1 h
   obtain ⟨hc0, hw0⟩ := dly_start r p nti hp hy
-  have he : EnumOk (dctx r p nti).e := makeEnum_ok r p hr hp hs.timeOk
+  have he : EnumOk (dctx r p nti).e := makeEnum_ok r p hr hp
   have hv : VD p.y p.m p.d := ⟨hp.month.1, hp.month.2, hp.day.1, hp.day.2⟩
   have hpy := hp.year
   -- the result is a sane accumulator
@@ -59,7 +59,7 @@ theorem dly_nh_complete' (r : Rule) (p : Inst) (n nti : Nat) (l : List Inst) (hr
   have hacc := hacc he
   rw [hw0] at hl
   obtain ⟨hgeP, hxin, -⟩ := ge_seed hp hy hx.1 hxy hge
-  obtain ⟨k, hc, hsk, -, ix, hix⟩ := dly_inst_conv r p nti hr hp hs hy x hx hxy
+  obtain ⟨k, hc, hsk, -, ix, hix⟩ := dly_inst_conv r p nti hr hp hy x hx hxy
   have hskip : dlySkip (dctx r p nti) ix = false := hsk' k ix hc hsk hix
   rcases dlyLoop_complete (dctx r p nti) hr hp he x k hc hxy hx.1.2.2.2.2.1 ix hix hskip hsk hgeP hle
     _ 0 p.y p.m p.d [] l' (Nat.zero_le _) hc0 (Acc.nil _ _ _) (Below.nil _ _ _) hl with a | ⟨b1, b2⟩
@@ -69,11 +69,11 @@ theorem dly_nh_complete' (r : Rule) (p : Inst) (n nti : Nat) (l : List Inst) (hr
     exact acc_ltP hacc hxin hx.1.2.2.2.2.1 b2 z (List.mem_reverse.1 hz)
 
 theorem dly_nh_complete (r : Rule) (p : Inst) (n nti : Nat) (l : List Inst) (hr : WfRule r) (hp : WfInst p)
-    (hs : SeedOk r p) (hy : 1901 ≤ p.y) (hpos : r.pos = []) (hcap : capNti r n = some nti) (hh : ¬ Handover r)
+    (hy : 1901 ≤ p.y) (hpos : r.pos = []) (hcap : capNti r n = some nti) (hh : ¬ Handover r)
     (h : fillDly r p n = some l) (x : Inst) (hx : DailyInst r p x) (hge : absOf p ≤ absOf x)
     (hle : ltP r.untl x = false) (hxy : x.y ≤ 2099) :
     x ∈ l ∨ (l.length = nti ∧ ∀ z ∈ l, ltP z x = true) := by
-  refine dly_nh_complete' r p n nti l hr hp hs hy hcap hh h x hx hge hle hxy ?_
+  refine dly_nh_complete' r p n nti l hr hp hy hcap hh h x hx hge hle hxy ?_
   intro k ix _ _ _
   unfold dlySkip
   show ((!r.pos.isEmpty) && _) = false
